@@ -81,6 +81,7 @@ allowPorts = [{start=18990,end=18999}]
 userConnTimeout = 5
 transport.maxPoolCount = 2
 transport.tcpMux = %v
+transport.heartbeatTimeout = -1
 detailedErrorsToClient = %v
 `, port, token, o.mux, o.detailed))
 		if err != nil {
@@ -439,6 +440,17 @@ func sessionGone(e *env, runID string, timeout time.Duration) bool {
 }
 
 func namesGone(e *env, timeout time.Duration, names ...string) bool {
+	if watchdogHits.Load() >= 6 && timeout > 2*time.Second {
+		timeout = 2 * time.Second
+	}
+	ok := namesGoneIn(e, timeout, names...)
+	if !ok {
+		watchdogHits.Add(1)
+	}
+	return ok
+}
+
+func namesGoneIn(e *env, timeout time.Duration, names ...string) bool {
 	return h.Eventually(timeout, func() bool {
 		have := map[string]bool{}
 		snap := e.srv.Snapshot()
